@@ -44,7 +44,7 @@ PROPS = {
         "level": "exploration",
         "rule": "exhaustive over the 64 single-bit bitmaps, the 780 pairs of defined privileges, the 40 all-but-one bitmaps and empty/all "
                 "(TestC16Exhaustive), sampled 64-bit values and subsets beyond (TestC16Sampled), plus login-time wire check of the 354 "
-                "user-access bytes for accounts stored in named and legacy form (TestC16Wire), whole account directories of 2-6 files mixing the "
+                "user-access bytes for accounts stored in named and legacy form, and again after an administrator's set-user while the user is logged in (TestC16Wire), whole account directories of 2-6 files mixing the "
                 "legacy and the named form in every load order, loaded twice (the migrating start and the next): every account holds exactly its own "
                 "file's privileges (TestC16Dir), and per-bit authorization over all C05 cells "
                 "(TestC16Authz); oracle = independent privilege-number -> account-file-key table (hlref.PrivilegeNames) and MSB-first bit "
